@@ -470,7 +470,10 @@ def oracleC03 (s : SyncCase) : Option String :=
   firstSome (s.hooks.filter (fun h => h.hook != "customize")) (fun h =>
     let actual := s.hookChildren h
     let expected := expectedView s h
-    orElse (check (actual.eqv expected) s!"the children map sent to the hook differs from the owned set: sent {actual.canon.fields.map (fun g => (g.1, g.2.fields.map (·.1)))} expected {expected.canon.fields.map (fun g => (g.1, g.2.fields.map (·.1)))}") fun _ =>
+    let names (j : J) := j.canon.fields.map (fun g => (g.1, g.2.fields.map (·.1)))
+    let sameNames := names actual == names expected
+    orElse (check (actual.eqv expected) (s!"the children map sent to the hook differs from the owned set: sent {names actual} expected {names expected}" ++
+      (if sameNames then " (the same objects, but the content of one differs from the object in the cache the sync started from)" else ""))) fun _ =>
     -- namespace defaulting of returned children is visible in the creates: a namespaced child is created in the parent's namespace
     none)
 
